@@ -1120,6 +1120,12 @@ let rec seq start = function
 | O -> []
 | S len0 -> start :: (seq (S start) len0)
 
+(** val repeat : 'a1 -> nat -> 'a1 list **)
+
+let rec repeat x = function
+| O -> []
+| S k -> x :: (repeat x k)
+
 (** val eqb0 : byte -> byte -> bool **)
 
 let eqb0 a b =
@@ -2179,164 +2185,6 @@ let of_N = function
       | XH -> Some X02)
    | XH -> Some X01)
 
-(** val w : n **)
-
-let w =
-  Npos (XO (XO (XO (XO (XO (XO (XO (XO (XO (XO (XO (XO (XO (XO (XO (XO (XO
-    (XO (XO (XO (XO (XO (XO (XO (XO (XO (XO (XO (XO (XO (XO (XO (XO (XO (XO
-    (XO (XO (XO (XO (XO (XO (XO (XO (XO (XO (XO (XO (XO (XO (XO (XO (XO (XO
-    (XO (XO (XO (XO (XO (XO (XO (XO (XO (XO (XO
-    XH))))))))))))))))))))))))))))))))))))))))))))))))))))))))))))))))
-
-(** val w64 : n -> n **)
-
-let w64 x =
-  N.modulo x w
-
-type fsSuper = { size : n; nLog : n; nBlockBitmap : n; nInodeBitmap : 
-                 n; nInodeBlk : n; maxaddr : n }
-
-(** val nBlockBitmap : fsSuper -> n **)
-
-let nBlockBitmap f =
-  f.nBlockBitmap
-
-(** val mkFsSuper : n -> fsSuper **)
-
-let mkFsSuper sz =
-  let nblockbitmap =
-    w64
-      (N.add
-        (N.div sz (Npos (XO (XO (XO (XO (XO (XO (XO (XO (XO (XO (XO (XO (XO
-          (XO (XO XH))))))))))))))))) (Npos XH))
-  in
-  { size = sz; nLog = (Npos (XI (XO (XO (XO (XO (XO (XO (XO (XO XH))))))))));
-  nBlockBitmap = nblockbitmap; nInodeBitmap = (Npos XH); nInodeBlk = (Npos
-  (XO (XO (XO (XO (XO (XO (XO (XO (XO (XO XH))))))))))); maxaddr = sz }
-
-(** val maxBnum : fsSuper -> n **)
-
-let maxBnum fs =
-  fs.maxaddr
-
-(** val bitmapBlockStart : fsSuper -> n **)
-
-let bitmapBlockStart fs =
-  fs.nLog
-
-(** val bitmapInodeStart : fsSuper -> n **)
-
-let bitmapInodeStart fs =
-  w64 (N.add (bitmapBlockStart fs) fs.nBlockBitmap)
-
-(** val inodeStart : fsSuper -> n **)
-
-let inodeStart fs =
-  w64 (N.add (bitmapInodeStart fs) fs.nInodeBitmap)
-
-(** val dataStart : fsSuper -> n **)
-
-let dataStart fs =
-  w64 (N.add (inodeStart fs) fs.nInodeBlk)
-
-(** val nInode : fsSuper -> n **)
-
-let nInode fs =
-  w64 (N.mul fs.nInodeBlk (Npos (XO (XO (XO (XO (XO XH)))))))
-
-(** val inum2Addr : fsSuper -> n -> n * n **)
-
-let inum2Addr fs inum0 =
-  ((w64
-     (N.add (inodeStart fs) (N.div inum0 (Npos (XO (XO (XO (XO (XO XH))))))))),
-    (w64
-      (N.mul
-        (w64
-          (N.mul (N.modulo inum0 (Npos (XO (XO (XO (XO (XO XH))))))) (Npos
-            (XO (XO (XO (XO (XO (XO (XO XH)))))))))) (Npos (XO (XO (XO XH)))))))
-
-(** val nBITBLOCK : n **)
-
-let nBITBLOCK =
-  Npos (XO (XO (XO (XO (XO (XO (XO (XO (XO (XO (XO (XO (XO (XO (XO
-    XH)))))))))))))))
-
-(** val lOGSIZE : n **)
-
-let lOGSIZE =
-  Npos (XI (XO (XO (XO (XO (XO (XO (XO (XO XH)))))))))
-
-(** val markAlloc_sane : fsSuper -> bool **)
-
-let markAlloc_sane fs =
-  negb
-    ((||)
-      ((||) (N.leb nBITBLOCK (dataStart fs))
-        (N.leb (w64 (N.mul nBITBLOCK fs.nBlockBitmap)) (maxBnum fs)))
-      (N.ltb (maxBnum fs) (dataStart fs)))
-
-(** val mk_bit : fsSuper -> n -> bool **)
-
-let mk_bit fs b =
-  let n0 = dataStart fs in
-  let m = maxBnum fs in
-  let last = N.div m nBITBLOCK in
-  let blk = N.div b nBITBLOCK in
-  let off = N.modulo b nBITBLOCK in
-  if N.eqb last N0
-  then (&&) (N.eqb blk N0)
-         ((||) (N.ltb off n0) (N.leb (N.modulo m nBITBLOCK) off))
-  else (||) ((&&) (N.eqb blk N0) (N.ltb off n0))
-         ((&&) (N.eqb blk last) (N.leb (N.modulo m nBITBLOCK) off))
-
-(** val mk_ibit : n -> bool **)
-
-let mk_ibit i =
-  N.ltb i (Npos (XO XH))
-
-(** val fresh_free_blocks : fsSuper -> n **)
-
-let fresh_free_blocks fs =
-  N.sub (maxBnum fs) (dataStart fs)
-
-(** val fresh_free_inodes : fsSuper -> n **)
-
-let fresh_free_inodes fs =
-  N.sub (nInode fs) (Npos (XO XH))
-
-(** val layout_ok_b : n -> bool **)
-
-let layout_ok_b sz =
-  let fs = mkFsSuper sz in
-  (||) (negb (markAlloc_sane fs))
-    ((&&)
-      ((&&)
-        ((&&)
-          ((&&)
-            ((&&)
-              ((&&)
-                ((&&) (N.eqb (bitmapBlockStart fs) lOGSIZE)
-                  (N.eqb (bitmapInodeStart fs)
-                    (N.add (bitmapBlockStart fs) fs.nBlockBitmap)))
-                (N.eqb (inodeStart fs)
-                  (N.add (bitmapInodeStart fs) (Npos XH))))
-              (N.eqb (dataStart fs)
-                (N.add (inodeStart fs) (Npos (XO (XO (XO (XO (XO (XO (XO (XO
-                  (XO (XO XH)))))))))))))) (N.leb (dataStart fs) sz))
-          (N.eqb (nInode fs) (Npos (XO (XO (XO (XO (XO (XO (XO (XO (XO (XO
-            (XO (XO (XO (XO (XO XH))))))))))))))))))
-        (N.ltb sz (N.mul fs.nBlockBitmap nBITBLOCK)))
-      (N.leb (N.mul (N.sub fs.nBlockBitmap (Npos XH)) nBITBLOCK) sz))
-
-(** val bitmap_ok_b : n -> n -> bool **)
-
-let bitmap_ok_b sz b =
-  let fs = mkFsSuper sz in
-  (||)
-    ((||) (negb (markAlloc_sane fs))
-      (negb (N.ltb b (N.mul fs.nBlockBitmap nBITBLOCK))))
-    (eqb (mk_bit fs b) ((||) (N.ltb b (dataStart fs)) (N.leb sz b)))
-
 type decision = bool
 
 (** val decide : decision -> bool **)
@@ -2468,12 +2316,12 @@ type ('a, 'c) elements = 'c -> 'a list
 let elements0 elements1 =
   elements1
 
-type 'c size0 = 'c -> nat
+type 'c size = 'c -> nat
 
-(** val size1 : 'a1 size0 -> 'a1 -> nat **)
+(** val size0 : 'a1 size -> 'a1 -> nat **)
 
-let size1 size2 =
-  size2
+let size0 size3 =
+  size3
 
 (** val true_dec : decision **)
 
@@ -2820,7 +2668,7 @@ let n_countable =
     then Some N0
     else Some (Npos (Coq_Pos.pred p))) }
 
-(** val set_size : ('a1, 'a2) elements -> 'a2 size0 **)
+(** val set_size : ('a1, 'a2) elements -> 'a2 size **)
 
 let set_size h =
   compose length (elements0 h)
@@ -2867,7 +2715,7 @@ let map_singleton h h0 i x =
 let list_to_map h h0 =
   fold_right (fun p -> insert0 h (fst p) (snd p)) (empty0 h0)
 
-(** val map_size : ('a1, 'a2, 'a3) finMapToList -> 'a3 size0 **)
+(** val map_size : ('a1, 'a2, 'a3) finMapToList -> 'a3 size **)
 
 let map_size h m =
   length (map_to_list h m)
@@ -3157,6 +3005,276 @@ let gset_elements eqDecision0 h =
 let gset_elem_of_dec eqDecision0 h =
   mapset_elem_of_dec (Obj.magic (fun _ -> gmap_lookup eqDecision0 h))
 
+(** val w : n **)
+
+let w =
+  Npos (XO (XO (XO (XO (XO (XO (XO (XO (XO (XO (XO (XO (XO (XO (XO (XO (XO
+    (XO (XO (XO (XO (XO (XO (XO (XO (XO (XO (XO (XO (XO (XO (XO (XO (XO (XO
+    (XO (XO (XO (XO (XO (XO (XO (XO (XO (XO (XO (XO (XO (XO (XO (XO (XO (XO
+    (XO (XO (XO (XO (XO (XO (XO (XO (XO (XO (XO
+    XH))))))))))))))))))))))))))))))))))))))))))))))))))))))))))))))))
+
+(** val bS : n **)
+
+let bS =
+  Npos (XO (XO (XO (XO (XO (XO (XO (XO (XO (XO (XO (XO XH))))))))))))
+
+type sbyte = n
+
+type ino = { size1 : n; blk : sbyte list }
+
+(** val sum_overflows : n -> n -> bool **)
+
+let sum_overflows n0 m =
+  N.ltb (N.modulo (N.add n0 m) w) n0
+
+(** val lenN : 'a1 list -> n **)
+
+let lenN l =
+  N.of_nat (length l)
+
+(** val sub0 : sbyte list -> n -> n -> sbyte list **)
+
+let sub0 l off cnt =
+  firstn (N.to_nat cnt) (skipn (N.to_nat off) l)
+
+(** val splice : sbyte list -> n -> sbyte list -> sbyte list **)
+
+let splice l off d =
+  app (firstn (N.to_nat off) l)
+    (app d (skipn (add (N.to_nat off) (length d)) l))
+
+(** val i_read : ino -> n -> n -> sbyte list * bool **)
+
+let i_read ip offset bytesToRead =
+  if N.leb ip.size1 offset
+  then ([], true)
+  else let count =
+         if N.ltb (N.sub ip.size1 offset) bytesToRead
+         then N.sub ip.size1 offset
+         else bytesToRead
+       in
+       ((sub0 ip.blk offset count),
+       (N.leb ip.size1 (N.modulo (N.add offset count) w)))
+
+(** val i_write : ino -> n -> n -> sbyte list -> (n * ino) option **)
+
+let i_write ip offset count data =
+  if negb (N.eqb count (lenN data))
+  then None
+  else if sum_overflows offset count
+       then None
+       else if N.ltb bS (N.modulo (N.add offset count) w)
+            then None
+            else if N.ltb ip.size1 offset
+                 then None
+                 else let b' = splice ip.blk offset data in
+                      let sz' =
+                        if N.ltb ip.size1 (N.modulo (N.add offset count) w)
+                        then N.modulo (N.add offset count) w
+                        else ip.size1
+                      in
+                      Some (count, { size1 = sz'; blk = b' })
+
+(** val i_setsize : ino -> n -> ino option * n **)
+
+let i_setsize ip newsize =
+  if N.ltb bS newsize
+  then (None, N0)
+  else if N.ltb ip.size1 newsize
+       then let n0 = N.sub newsize ip.size1 in
+            (match i_write ip ip.size1 n0 (repeat N0 (N.to_nat n0)) with
+             | Some p ->
+               let (_, ip') = p in
+               ((if N.eqb ip'.size1 newsize then Some ip' else None), n0)
+             | None -> (None, n0))
+       else ((Some { size1 = newsize; blk = ip.blk }), N0)
+
+type file = sbyte list
+
+(** val s_read : file -> n -> n -> sbyte list * bool **)
+
+let s_read f offset count =
+  if N.leb (lenN f) offset
+  then ([], true)
+  else ((firstn (N.to_nat (N.min count (N.sub (lenN f) offset)))
+          (skipn (N.to_nat offset) f)),
+         (N.leb (lenN f) (N.add offset (N.min count (N.sub (lenN f) offset)))))
+
+(** val s_write : file -> n -> sbyte list -> file option **)
+
+let s_write f offset data =
+  if (&&) (N.leb offset (lenN f)) (N.leb (N.add offset (lenN data)) bS)
+  then Some
+         (app (firstn (N.to_nat offset) f)
+           (app data (skipn (add (N.to_nat offset) (length data)) f)))
+  else None
+
+(** val s_setsize : file -> n -> file option **)
+
+let s_setsize f newsize =
+  if N.ltb bS newsize
+  then None
+  else if N.ltb (lenN f) newsize
+       then Some (app f (repeat N0 (N.to_nat (N.sub newsize (lenN f)))))
+       else Some (firstn (N.to_nat newsize) f)
+
+(** val nINODE : n **)
+
+let nINODE =
+  Npos (XO (XO (XO (XO (XO XH)))))
+
+(** val valid_inum : n -> bool **)
+
+let valid_inum i =
+  (&&) ((&&) (negb (N.eqb i N0)) (negb (N.eqb i (Npos XH)))) (N.ltb i nINODE)
+
+type scall =
+| SGetattr of n
+| SSetattr of n * n option
+| SRead of n * n * n
+| SWrite of n * n * n * sbyte list
+
+type sreply =
+| SErr
+| SAttr of bool * n
+| SOk
+| SData of sbyte list * bool
+| SWritten of n
+
+type sstate = (n, file) gmap
+
+(** val s_file : sstate -> n -> file **)
+
+let s_file s i =
+  from_option (Obj.magic id) []
+    (lookup0 (gmap_lookup n_eq_dec n_countable) i s)
+
+(** val sstep : sstate -> scall -> sstate * sreply **)
+
+let sstep s = function
+| SGetattr i ->
+  if N.eqb i (Npos XH)
+  then (s, (SAttr (true, N0)))
+  else if valid_inum i
+       then (s, (SAttr (false, (lenN (s_file s i)))))
+       else (s, SErr)
+| SSetattr (i, newsize) ->
+  (match newsize with
+   | Some n0 ->
+     if valid_inum i
+     then (match s_setsize (s_file s i) n0 with
+           | Some f' ->
+             ((insert0 (map_insert (gmap_partial_alter n_eq_dec n_countable))
+                i f' s), SOk)
+           | None -> (s, SErr))
+     else (s, SErr)
+   | None -> if valid_inum i then (s, SOk) else (s, SErr))
+| SRead (i, off, cnt) ->
+  if valid_inum i
+  then let (d, eof) = s_read (s_file s i) off cnt in (s, (SData (d, eof)))
+  else (s, SErr)
+| SWrite (i, off, cnt, d) ->
+  if valid_inum i
+  then if negb (N.eqb cnt (lenN d))
+       then (s, SErr)
+       else (match s_write (s_file s i) off d with
+             | Some f' ->
+               ((insert0
+                  (map_insert (gmap_partial_alter n_eq_dec n_countable)) i f'
+                  s), (SWritten cnt))
+             | None -> (s, SErr))
+  else (s, SErr)
+
+type istate = (n, ino) gmap
+
+(** val zero_ino : ino **)
+
+let zero_ino =
+  { size1 = N0; blk = (repeat N0 (N.to_nat bS)) }
+
+(** val i_ino : istate -> n -> ino **)
+
+let i_ino s i =
+  from_option (Obj.magic id) zero_ino
+    (lookup0 (gmap_lookup n_eq_dec n_countable) i s)
+
+(** val istep : istate -> scall -> istate * sreply **)
+
+let istep s = function
+| SGetattr i ->
+  if N.eqb i (Npos XH)
+  then (s, (SAttr (true, N0)))
+  else if valid_inum i
+       then (s, (SAttr (false, (i_ino s i).size1)))
+       else (s, SErr)
+| SSetattr (i, newsize) ->
+  (match newsize with
+   | Some n0 ->
+     if valid_inum i
+     then (match fst (i_setsize (i_ino s i) n0) with
+           | Some ip' ->
+             ((insert0 (map_insert (gmap_partial_alter n_eq_dec n_countable))
+                i ip' s), SOk)
+           | None -> (s, SErr))
+     else (s, SErr)
+   | None -> if valid_inum i then (s, SOk) else (s, SErr))
+| SRead (i, off, cnt) ->
+  if valid_inum i
+  then let (d, eof) = i_read (i_ino s i) off cnt in (s, (SData (d, eof)))
+  else (s, SErr)
+| SWrite (i, off, cnt, d) ->
+  if valid_inum i
+  then (match i_write (i_ino s i) off cnt d with
+        | Some p ->
+          let (c', ip') = p in
+          ((insert0 (map_insert (gmap_partial_alter n_eq_dec n_countable)) i
+             ip' s), (SWritten c'))
+        | None -> (s, SErr))
+  else (s, SErr)
+
+(** val simple_abs : (n -> sbyte list) -> n -> file **)
+
+let simple_abs rd0 i =
+  let ib = rd0 (Npos (XI (XO (XO (XO (XO (XO (XO (XO (XO XH)))))))))) in
+  let le8 = fun l ->
+    fold_right (fun b acc ->
+      N.add b (N.mul (Npos (XO (XO (XO (XO (XO (XO (XO (XO XH))))))))) acc))
+      N0 (firstn (S (S (S (S (S (S (S (S O)))))))) l)
+  in
+  let sz =
+    le8
+      (skipn
+        (N.to_nat (N.mul i (Npos (XO (XO (XO (XO (XO (XO (XO XH)))))))))) ib)
+  in
+  let db =
+    le8
+      (skipn
+        (N.to_nat
+          (N.add (N.mul i (Npos (XO (XO (XO (XO (XO (XO (XO XH))))))))) (Npos
+            (XO (XO (XO XH)))))) ib)
+  in
+  firstn (N.to_nat (N.min sz bS)) (rd0 db)
+
+(** val simple_inum_of_handle : sbyte list -> n **)
+
+let simple_inum_of_handle h =
+  if N.ltb (lenN h) (Npos (XO (XO (XO XH))))
+  then N0
+  else fold_right (fun b acc ->
+         N.add b (N.mul (Npos (XO (XO (XO (XO (XO (XO (XO (XO XH))))))))) acc))
+         N0 (firstn (S (S (S (S (S (S (S (S O)))))))) h)
+
+(** val simple_empty_s : sstate **)
+
+let simple_empty_s =
+  empty0 (gmap_empty n_eq_dec n_countable)
+
+(** val simple_empty_i : istate **)
+
+let simple_empty_i =
+  empty0 (gmap_empty n_eq_dec n_countable)
+
 type byte0 = byte
 
 (** val x00 : byte0 **)
@@ -3181,9 +3299,9 @@ type bytes = byte0 list
 let bytes_eqb a b =
   bool_decide (decide_rel (list_eq_dec0 byte_eq_dec0) a b)
 
-(** val bS : n **)
+(** val bS0 : n **)
 
-let bS =
+let bS0 =
   Npos (XO (XO (XO (XO (XO (XO (XO (XO (XO (XO (XO (XO XH))))))))))))
 
 (** val zeros : n -> bytes **)
@@ -3194,7 +3312,7 @@ let zeros n0 =
 (** val zero_block : bytes **)
 
 let zero_block =
-  zeros bS
+  zeros bS0
 
 (** val all_zero : bytes -> bool **)
 
@@ -3235,9 +3353,9 @@ let takeN n0 l =
 let dropN n0 l =
   skipn (N.to_nat n0) l
 
-(** val lenN : 'a1 list -> n **)
+(** val lenN0 : 'a1 list -> n **)
 
-let lenN l =
+let lenN0 l =
   N.of_nat (length l)
 
 (** val get : nat -> bytes -> n -> n **)
@@ -3255,9 +3373,9 @@ let get64 =
 let get32 =
   get (S (S (S (S O))))
 
-(** val splice : bytes -> n -> bytes -> bytes **)
+(** val splice0 : bytes -> n -> bytes -> bytes **)
 
-let splice l off d =
+let splice0 l off d =
   app (takeN off l) (app d (skipn (add (N.to_nat off) (length d)) l))
 
 type name = bytes
@@ -3273,7 +3391,7 @@ let mk_handle i g =
 (** val parse_handle : handle -> (n * n) option **)
 
 let parse_handle h =
-  if N.eqb (lenN h) (Npos (XO (XO (XO (XO XH)))))
+  if N.eqb (lenN0 h) (Npos (XO (XO (XO (XO XH)))))
   then Some ((unle (firstn (S (S (S (S (S (S (S (S O)))))))) h)),
          (unle (skipn (S (S (S (S (S (S (S (S O)))))))) h)))
   else None
@@ -3297,6 +3415,196 @@ let dot =
 
 let dotdot =
   b_dot :: (b_dot :: [])
+
+type kstate = (n, bytes) gmap
+
+(** val kput : kstate -> (n * bytes) list -> kstate **)
+
+let kput s pairs =
+  fold_left (fun s0 p ->
+    insert0 (map_insert (gmap_partial_alter n_eq_dec n_countable)) (fst p)
+      (snd p) s0) pairs s
+
+(** val kget : kstate -> n -> bytes **)
+
+let kget s k =
+  from_option (Obj.magic id) zero_block
+    (lookup0 (gmap_lookup n_eq_dec n_countable) k s)
+
+(** val k_valid : n -> n -> bool **)
+
+let k_valid sz k =
+  (&&) (N.leb (Npos (XI (XO (XO (XO (XO (XO (XO (XO (XO XH)))))))))) k)
+    (N.ltb k sz)
+
+(** val kput_ok : n -> (n * bytes) list -> bool **)
+
+let kput_ok sz pairs =
+  forallb (fun p -> k_valid sz (fst p)) pairs
+
+(** val kvs_empty : kstate **)
+
+let kvs_empty =
+  empty0 (gmap_empty n_eq_dec n_countable)
+
+(** val w0 : n **)
+
+let w0 =
+  Npos (XO (XO (XO (XO (XO (XO (XO (XO (XO (XO (XO (XO (XO (XO (XO (XO (XO
+    (XO (XO (XO (XO (XO (XO (XO (XO (XO (XO (XO (XO (XO (XO (XO (XO (XO (XO
+    (XO (XO (XO (XO (XO (XO (XO (XO (XO (XO (XO (XO (XO (XO (XO (XO (XO (XO
+    (XO (XO (XO (XO (XO (XO (XO (XO (XO (XO (XO
+    XH))))))))))))))))))))))))))))))))))))))))))))))))))))))))))))))))
+
+(** val w64 : n -> n **)
+
+let w64 x =
+  N.modulo x w0
+
+type fsSuper = { size2 : n; nLog : n; nBlockBitmap : n; nInodeBitmap : 
+                 n; nInodeBlk : n; maxaddr : n }
+
+(** val nBlockBitmap : fsSuper -> n **)
+
+let nBlockBitmap f =
+  f.nBlockBitmap
+
+(** val mkFsSuper : n -> fsSuper **)
+
+let mkFsSuper sz =
+  let nblockbitmap =
+    w64
+      (N.add
+        (N.div sz (Npos (XO (XO (XO (XO (XO (XO (XO (XO (XO (XO (XO (XO (XO
+          (XO (XO XH))))))))))))))))) (Npos XH))
+  in
+  { size2 = sz; nLog = (Npos (XI (XO (XO (XO (XO (XO (XO (XO (XO
+  XH)))))))))); nBlockBitmap = nblockbitmap; nInodeBitmap = (Npos XH);
+  nInodeBlk = (Npos (XO (XO (XO (XO (XO (XO (XO (XO (XO (XO XH)))))))))));
+  maxaddr = sz }
+
+(** val maxBnum : fsSuper -> n **)
+
+let maxBnum fs =
+  fs.maxaddr
+
+(** val bitmapBlockStart : fsSuper -> n **)
+
+let bitmapBlockStart fs =
+  fs.nLog
+
+(** val bitmapInodeStart : fsSuper -> n **)
+
+let bitmapInodeStart fs =
+  w64 (N.add (bitmapBlockStart fs) fs.nBlockBitmap)
+
+(** val inodeStart : fsSuper -> n **)
+
+let inodeStart fs =
+  w64 (N.add (bitmapInodeStart fs) fs.nInodeBitmap)
+
+(** val dataStart : fsSuper -> n **)
+
+let dataStart fs =
+  w64 (N.add (inodeStart fs) fs.nInodeBlk)
+
+(** val nInode : fsSuper -> n **)
+
+let nInode fs =
+  w64 (N.mul fs.nInodeBlk (Npos (XO (XO (XO (XO (XO XH)))))))
+
+(** val inum2Addr : fsSuper -> n -> n * n **)
+
+let inum2Addr fs inum0 =
+  ((w64
+     (N.add (inodeStart fs) (N.div inum0 (Npos (XO (XO (XO (XO (XO XH))))))))),
+    (w64
+      (N.mul
+        (w64
+          (N.mul (N.modulo inum0 (Npos (XO (XO (XO (XO (XO XH))))))) (Npos
+            (XO (XO (XO (XO (XO (XO (XO XH)))))))))) (Npos (XO (XO (XO XH)))))))
+
+(** val nBITBLOCK : n **)
+
+let nBITBLOCK =
+  Npos (XO (XO (XO (XO (XO (XO (XO (XO (XO (XO (XO (XO (XO (XO (XO
+    XH)))))))))))))))
+
+(** val lOGSIZE : n **)
+
+let lOGSIZE =
+  Npos (XI (XO (XO (XO (XO (XO (XO (XO (XO XH)))))))))
+
+(** val markAlloc_sane : fsSuper -> bool **)
+
+let markAlloc_sane fs =
+  negb
+    ((||)
+      ((||) (N.leb nBITBLOCK (dataStart fs))
+        (N.leb (w64 (N.mul nBITBLOCK fs.nBlockBitmap)) (maxBnum fs)))
+      (N.ltb (maxBnum fs) (dataStart fs)))
+
+(** val mk_bit : fsSuper -> n -> bool **)
+
+let mk_bit fs b =
+  let n0 = dataStart fs in
+  let m = maxBnum fs in
+  let last = N.div m nBITBLOCK in
+  let blk0 = N.div b nBITBLOCK in
+  let off = N.modulo b nBITBLOCK in
+  if N.eqb last N0
+  then (&&) (N.eqb blk0 N0)
+         ((||) (N.ltb off n0) (N.leb (N.modulo m nBITBLOCK) off))
+  else (||) ((&&) (N.eqb blk0 N0) (N.ltb off n0))
+         ((&&) (N.eqb blk0 last) (N.leb (N.modulo m nBITBLOCK) off))
+
+(** val mk_ibit : n -> bool **)
+
+let mk_ibit i =
+  N.ltb i (Npos (XO XH))
+
+(** val fresh_free_blocks : fsSuper -> n **)
+
+let fresh_free_blocks fs =
+  N.sub (maxBnum fs) (dataStart fs)
+
+(** val fresh_free_inodes : fsSuper -> n **)
+
+let fresh_free_inodes fs =
+  N.sub (nInode fs) (Npos (XO XH))
+
+(** val layout_ok_b : n -> bool **)
+
+let layout_ok_b sz =
+  let fs = mkFsSuper sz in
+  (||) (negb (markAlloc_sane fs))
+    ((&&)
+      ((&&)
+        ((&&)
+          ((&&)
+            ((&&)
+              ((&&)
+                ((&&) (N.eqb (bitmapBlockStart fs) lOGSIZE)
+                  (N.eqb (bitmapInodeStart fs)
+                    (N.add (bitmapBlockStart fs) fs.nBlockBitmap)))
+                (N.eqb (inodeStart fs)
+                  (N.add (bitmapInodeStart fs) (Npos XH))))
+              (N.eqb (dataStart fs)
+                (N.add (inodeStart fs) (Npos (XO (XO (XO (XO (XO (XO (XO (XO
+                  (XO (XO XH)))))))))))))) (N.leb (dataStart fs) sz))
+          (N.eqb (nInode fs) (Npos (XO (XO (XO (XO (XO (XO (XO (XO (XO (XO
+            (XO (XO (XO (XO (XO XH))))))))))))))))))
+        (N.ltb sz (N.mul fs.nBlockBitmap nBITBLOCK)))
+      (N.leb (N.mul (N.sub fs.nBlockBitmap (Npos XH)) nBITBLOCK) sz))
+
+(** val bitmap_ok_b : n -> n -> bool **)
+
+let bitmap_ok_b sz b =
+  let fs = mkFsSuper sz in
+  (||)
+    ((||) (negb (markAlloc_sane fs))
+      (negb (N.ltb b (N.mul fs.nBlockBitmap nBITBLOCK))))
+    (eqb (mk_bit fs b) ((||) (N.ltb b (dataStart fs)) (N.leb sz b)))
 
 type inum = n
 
@@ -3393,15 +3701,15 @@ let rec read_chunks m fuel ci skip cnt =
   | S f ->
     if N.eqb cnt N0
     then []
-    else let take_n = N.min cnt (N.sub bS skip) in
+    else let take_n = N.min cnt (N.sub bS0 skip) in
          app (takeN take_n (dropN skip (chunk_of m ci)))
            (read_chunks m f (N.add ci (Npos XH)) N0 (N.sub cnt take_n))
 
 (** val read_bytes : (n, bytes) gmap -> n -> n -> bytes **)
 
 let read_bytes m off cnt =
-  read_chunks m (add (N.to_nat (N.div cnt bS)) (S (S O))) (N.div off bS)
-    (N.modulo off bS) cnt
+  read_chunks m (add (N.to_nat (N.div cnt bS0)) (S (S O))) (N.div off bS0)
+    (N.modulo off bS0) cnt
 
 (** val write_chunks :
     (n, bytes) gmap -> nat -> n -> n -> bytes -> (n, bytes) gmap **)
@@ -3413,10 +3721,10 @@ let rec write_chunks m fuel ci skip d =
     (match d with
      | [] -> m
      | _ :: _ ->
-       let room = N.sub bS skip in
+       let room = N.sub bS0 skip in
        write_chunks
          (insert0 (map_insert (gmap_partial_alter n_eq_dec n_countable)) ci
-           (splice (chunk_of m ci) skip (takeN room d)) m) f
+           (splice0 (chunk_of m ci) skip (takeN room d)) m) f
          (N.add ci (Npos XH)) N0 (dropN room d))
 
 (** val write_bytes : (n, bytes) gmap -> n -> bytes -> (n, bytes) gmap **)
@@ -3604,13 +3912,13 @@ let write_bytes m off d =
         (S (S (S (S (S (S (S (S (S (S (S (S (S (S (S (S (S (S (S (S (S (S (S
         (S (S (S (S (S (S (S (S
         O)))))))))))))))))))))))))))))))))))))))))))))))))))))))))))))))))))))))))))))))))))))))))))))))))))))))))))))))))))))))))))))))))))))))))))))))))))))))))))))))))))))))))))))))))))))))))))))))))))))))))))))))))))))))))))))))))))))))))))))))))))))))))))))))))))))))))))))))))))))))))))))))))))))))))))))))))))))))))))))))))))))))))))))))))))))))))))))))))))))))))))))))))))))))))))))))))))))))))))))))))))))))))))))))))))))))))))))))))))))))))))))))))))))))))))))))))))))))))))))))))))))))))))))))))))))))))))))))))))))))))))))))))))))))))))))))))))))))))))))))))))))))))))))))))))))))))))))))))))))))))))))))))))))))))))))))))))))))))))))))))))))))))))))))))))))))))))))))))))))))))))))))))))))))))))))))))))))))))))))))))))))))))))))))))))))))))))))))))))))))))))))))))))))))))))))))))))))))))))))))))))))))))))))))))))))))))))))))))))))))))))))))))))))))))))))))))))))))))))))))))))))))))))))))))))))))))))))))))))))))))))))))))))))))))))))))))))))))))))))))))))))))))))))))))))))))))))))))))))))))))))))))))))))))))))))))))))))))))))))))))))))))))))))))))))))))))))))))))))))))))))))))))))))))))))))))))))))))))))))))))))))))))))))))))))))))))))))))))))))))))))))))))))))))))))))))))))))))))))))))))))))))))))))))))))))))))))))))))))))))))))))))))))))))))))))))))))))))))))))))))))))))))))))))))))))))))))))))))))))))))))))))))))))))))))))))))))))))))))))))))))))))))))))))))))))))))))))))))))))))))))))))))))))))))))))))))))))))))))))))))))))))))))))))))))))))))))))))))))))))))))))))))))))))))))))))))))))))))))))))))))))))))))))))))))))))))))))))))))))))))))))))))))))))))))))))))))))))))))))))))))))))))))))))))))))))))))))))))))))))))))))))))))))))))))))))))))))))))))))))))))))))))))))))))))))))))))))))))))))))))))))))))))))))))))))))))))))))))))))))))))))))))))))))))))))))))))))))))))))))))))))))))))))))))))))))))))))))))))))))))))))))))))))))))))))))))))))))))))))))))))))))))))))))))))))))))))))))))))))))))))))))))))))))))))))))))))))))))))))))))))))))))))))))))))))))))))))))))))))))))))))))))))))))))))))))))))))))))))))))))))))))))))))))))))))))))))))))))))))))))))))))))))))))))))))))))))))))))))))))))))))))))))))))))))))))))))))))))))))))))))))))))))))))))))))))))))))))))))))))))))))))))))))))))))))))))))))))))))))))))))))))))))))))))))))))))))))))))))))))))))))))))))))))))))))))))))))))))))))))))))))))))))))))))))))))))))))))))))))))))))))))))))))))))))))))))))))))))))))))))))))))))))))))))))))))))))))))))))))))))))))))))))))))))))))))))))))))))))))))))))))))))))))))))))))))))))))))))))))))))))))))))))))))))))))))))))))))))))))))))))))))))))))))))))))))))))))))))))))))))))))))))))))))))))))))))))))))))))))))))))))))))))))))))))))))))))))))))))))))))))))))))))))))))))))))))))))))))))))))))))))))))))))))))))))))))))))))))))))))))))))))))))))))))))))))))))))))))))))))))))))))))))))))))))))))))))))))))))))))))))))))))))))))))))))))))))))))))))))))))))))))))))))))))))))))))))))))))))))))))))))))))))))))))))))))))))))))))))))))))))))))))))))))))))))))))))))))))))))))))))))))))))))))))))))))))))))))))))))))))))))))))))))))))))))))))))))))))))))))))))))))))))))))))))))))))))))))))))))))))))))))))))))))))))))))))))))))))))))))))))))))))))))))))))))))))))))))))))))))))))))))))))))))))))))))))))))))))))))))))))))))))))))))))))))))))))))))))))))))))))))))))))))))))))))))))))))))))))))))))))))))))))))))))))))))))))))))))))))))))))))))))))))))))))))))))))))))))))))))))))))))))))))))))))))))))))))))))))))))))))))))))))))))))))))))))))))))))))))))))))))))))))))))))))))))))))))))))))))))))))))))))))))))))))))))))))))))))))))))))))))))))))))))))))))))))))))))))))))))))))))))))))))))))))))))))))))))))))))))))))))))))))))))))))))))))))))))))))))))))))))))))))))))))))))))))))))))))))))))))))))))))))))))))))))))))))))))))))))))))))))))))))))))))))))))))))))))))))))))))))))))))))))))))))))))))))))))))))))))))))))))))))))))))))))))))))))))))))))))))))))))))))))))))))))))))))))))))))))))))))))))))))))))))))))))))))))))))))))))))))))))))))))))))))))))))))))))))))))))))))))))))))))))))))))))))))))))))))))))))))))))))))))))))))))))))))))))))))))))))))))))))))))))))
-      (S (S O))) (N.div off bS) (N.modulo off bS) d
+      (S (S O))) (N.div off bS0) (N.modulo off bS0) d
 
 (** val trunc_data : (n, bytes) gmap -> n -> (n, bytes) gmap **)
 
 let trunc_data m sz =
-  let last = N.div sz bS in
-  if N.eqb (N.modulo sz bS) N0
+  let last = N.div sz bS0 in
+  if N.eqb (N.modulo sz bS0) N0
   then filter0 (fun _ ->
          map_filter (gmap_to_list n_eq_dec n_countable)
            (map_insert (gmap_partial_alter n_eq_dec n_countable))
@@ -3626,8 +3934,8 @@ let trunc_data m sz =
        (match lookup0 (gmap_lookup n_eq_dec n_countable) last m1 with
         | Some c ->
           insert0 (map_insert (gmap_partial_alter n_eq_dec n_countable)) last
-            (app (takeN (N.modulo sz bS) c)
-              (zeros (N.sub bS (N.modulo sz bS)))) m1
+            (app (takeN (N.modulo sz bS0) c)
+              (zeros (N.sub bS0 (N.modulo sz bS0)))) m1
         | None -> m1)
 
 type settime =
@@ -3737,7 +4045,8 @@ let is_dir o =
 let wf_name p n0 =
   (&&)
     ((&&)
-      ((&&) ((&&) (negb (N.eqb (lenN n0) N0)) (N.leb (lenN n0) p.p_name_max))
+      ((&&)
+        ((&&) (negb (N.eqb (lenN0 n0) N0)) (N.leb (lenN0 n0) p.p_name_max))
         (forallb (fun b ->
           (&&) (negb (bool_decide (decide_rel byte_eq_dec0 b b_slash)))
             (negb (bool_decide (decide_rel byte_eq_dec0 b x00)))) n0))
@@ -3830,7 +4139,7 @@ let create p s h n0 k content hi =
                          (list_countable byte_eq_dec0 byte_countable)) n0
                        d.o_ents))
               then (s, (RStatus ERR))
-              else if N.ltb p.p_wtmax (lenN content)
+              else if N.ltb p.p_wtmax (lenN0 content)
                    then (s, (RStatus ERR))
                    else (match hi with
                          | HHandle hh ->
@@ -3841,7 +4150,7 @@ let create p s h n0 k content hi =
                               then (s, (RStatus ERR))
                               else let o =
                                      with_content (new_obj k g di)
-                                       (lenN content)
+                                       (lenN0 content)
                                        (write_bytes
                                          (empty0
                                            (gmap_empty n_eq_dec n_countable))
@@ -4062,7 +4371,7 @@ let do_write p s h off cnt st d hi =
     let (i, o) = p0 in
     if negb (bool_decide (decide_rel kind_eq_dec o.o_kind KFile))
     then (s, (RStatus ERR))
-    else if negb (N.eqb cnt (lenN d))
+    else if negb (N.eqb cnt (lenN0 d))
          then (s, (RStatus ERR))
          else if N.ltb p.p_wtmax cnt
               then (s, (RStatus ERR))
@@ -4094,11 +4403,11 @@ let do_write p s h off cnt st d hi =
     params -> afs -> handle -> n option -> settime -> settime -> hint ->
     afs * reply **)
 
-let do_setattr p s h size2 at_ mt hi =
+let do_setattr p s h size3 at_ mt hi =
   match resolve p s h with
   | Some p0 ->
     let (i, o) = p0 in
-    (match size2 with
+    (match size3 with
      | Some sz ->
        if negb (bool_decide (decide_rel kind_eq_dec o.o_kind KFile))
        then (s, (RStatus ERR))
@@ -4297,8 +4606,8 @@ let read_inode l d i =
 
 (** val blk_count : n -> n **)
 
-let blk_count size2 =
-  N.div (N.sub (N.add size2 bS) (Npos XH)) bS
+let blk_count size3 =
+  N.div (N.sub (N.add size3 bS0) (Npos XH)) bS0
 
 (** val tree : disk -> nat -> n -> n -> n -> (n * n) list * n list **)
 
@@ -4308,10 +4617,10 @@ let rec tree d lvl root base span =
   else (match lvl with
         | O -> (((base, root) :: []), [])
         | S l ->
-          let sub0 = N.div span nPTR in
+          let sub1 = N.div span nPTR in
           let rs =
             imap (fun k p ->
-              tree d l p (N.add base (N.mul (N.of_nat k) sub0)) sub0)
+              tree d l p (N.add base (N.mul (N.of_nat k) sub1)) sub1)
               (words (S (S (S (S (S (S (S (S (S (S (S (S (S (S (S (S (S (S (S
                 (S (S (S (S (S (S (S (S (S (S (S (S (S (S (S (S (S (S (S (S
                 (S (S (S (S (S (S (S (S (S (S (S (S (S (S (S (S (S (S (S (S
@@ -4384,14 +4693,14 @@ let slot_of b o =
 
 (** val dir_slots : disk -> (n, n) gmap -> n -> (name * n) option list **)
 
-let dir_slots d lm size2 =
+let dir_slots d lm size3 =
   map (fun k ->
     let off = N.mul (N.of_nat k) dIRENTSZ in
     slot_of
-      (match lookup0 (gmap_lookup n_eq_dec n_countable) (N.div off bS) lm with
+      (match lookup0 (gmap_lookup n_eq_dec n_countable) (N.div off bS0) lm with
        | Some pb -> rd d pb
-       | None -> zero_block) (N.modulo off bS))
-    (seq O (N.to_nat (N.div size2 dIRENTSZ)))
+       | None -> zero_block) (N.modulo off bS0))
+    (seq O (N.to_nat (N.div size3 dIRENTSZ)))
 
 type wf_error =
 | EBadPtr of n * n
@@ -4422,7 +4731,7 @@ type wf_error =
 (** val bad_name_b : n -> name -> bool **)
 
 let bad_name_b name_max n0 =
-  (||) ((||) (N.eqb (lenN n0) N0) (N.ltb name_max (lenN n0)))
+  (||) ((||) (N.eqb (lenN0 n0) N0) (N.ltb name_max (lenN0 n0)))
     (negb
       (forallb (fun b ->
         (&&) (negb (bool_decide (decide_rel byte_eq_dec0 b b_slash)))
@@ -4573,7 +4882,7 @@ let visit name_max maxfilesize l d inum0 parent st =
             (app mine st.w_owned); w_errs = (app e1 (app e0 st.w_errs));
             w_seen = (gs_add n_eq_dec n_countable inum0 st.w_seen) },
             (map (fun e -> ((snd (Obj.magic e)), inum0)) real))
-       else let last = N.div ip.i_size bS in
+       else let last = N.div ip.i_size bS0 in
             let e1 =
               app
                 (if (||) (N.eqb ip.i_kind (Npos XH))
@@ -4582,12 +4891,13 @@ let visit name_max maxfilesize l d inum0 parent st =
                  else if N.eqb ip.i_kind N0
                       then (EDangling (parent, inum0)) :: []
                       else (EKind inum0) :: [])
-                (if N.eqb (N.modulo ip.i_size bS) N0
+                (if N.eqb (N.modulo ip.i_size bS0) N0
                  then []
                  else (match lookup0 (gmap_lookup n_eq_dec n_countable) last
                                lm with
                        | Some pb ->
-                         if all_zero (dropN (N.modulo ip.i_size bS) (rd d pb))
+                         if all_zero
+                              (dropN (N.modulo ip.i_size bS0) (rd d pb))
                          then []
                          else (ETailNonZero inum0) :: []
                        | None -> []))
@@ -4751,7 +5061,7 @@ let abs_disk name_max maxfilesize sz quiescent d =
   let ownedset = gs_of_list n_eq_dec n_countable owned in
   let derr =
     if Nat.eqb (length owned)
-         (size1 (set_size (gset_elements n_eq_dec n_countable)) ownedset)
+         (size0 (set_size (gset_elements n_eq_dec n_countable)) ownedset)
     then []
     else let rec dups xs seen =
            match xs with
@@ -4970,7 +5280,7 @@ let dir_agree s di cookie ents eof =
       (if (&&) (N.eqb cookie N0) eof
        then Nat.eqb (length ents)
               (add
-                (size1
+                (size0
                   (map_size
                     (gmap_to_list (list_eq_dec0 byte_eq_dec0)
                       (list_countable byte_eq_dec0 byte_countable))) d.o_ents)
@@ -5028,11 +5338,11 @@ let agree s r o =
         | N0 -> dir_agree s di cookie ents eof
         | Npos _ -> false)
      | _ -> false)
-  | RFsinfo (w0, m) ->
+  | RFsinfo (w1, m) ->
     (match o with
      | OFsinfo (code, ow, om) ->
        (match code with
-        | N0 -> (&&) (N.eqb w0 ow) (N.eqb m om)
+        | N0 -> (&&) (N.eqb w1 ow) (N.eqb m om)
         | Npos _ -> false)
      | _ -> false)
   | RPathconf n0 ->
@@ -5157,11 +5467,11 @@ let cmp_state s r =
 
 let need_blocks = function
 | CWrite (_, _, cnt, _, _) ->
-  N.add (N.add (N.div cnt bS) (Npos (XO XH))) (Npos (XI XH))
+  N.add (N.add (N.div cnt bS0) (Npos (XO XH))) (Npos (XI XH))
 | CCreate (_, _, _) -> Npos XH
 | CMkdir (_, _) -> Npos (XO XH)
 | CSymlink (_, _, t) ->
-  N.add (N.add (N.div (lenN t) bS) (Npos (XO XH))) (Npos XH)
+  N.add (N.add (N.div (lenN0 t) bS0) (Npos (XO XH))) (Npos XH)
 | CRename (_, _, _, _) -> Npos XH
 | _ -> N0
 
@@ -5178,6 +5488,40 @@ let needs_inode = function
 let nospace_plausible c free_blocks free_inodes =
   (||) (N.ltb free_blocks (need_blocks c))
     ((&&) (needs_inode c) (N.eqb free_inodes N0))
+
+(** val cached_inode_ok : n -> disk -> n -> bytes -> bool **)
+
+let cached_inode_ok sz d i enc =
+  bytes_eqb enc (inode_bytes (mk_layout sz) d i)
+
+(** val dir_slot_list : n -> disk -> n -> ((name * n) * n) list **)
+
+let dir_slot_list sz d i =
+  let l = mk_layout sz in
+  let ip = read_inode l d i in
+  let (leaves, _) = inode_blocks d ip in
+  let slots = dir_slots d (leaf_map leaves) ip.i_size in
+  omap (Obj.magic (fun _ _ -> list_omap)) (fun ks ->
+    match snd ks with
+    | Some y ->
+      let (n0, j) = y in Some ((n0, j), (N.mul (N.of_nat (fst ks)) dIRENTSZ))
+    | None -> None) (imap (fun k s -> ((Obj.magic k), (Obj.magic s))) slots)
+
+(** val triple_eqb : ((name * n) * n) -> ((name * n) * n) -> bool **)
+
+let triple_eqb a b =
+  (&&)
+    ((&&) (bytes_eqb (fst (fst a)) (fst (fst b)))
+      (N.eqb (snd (fst a)) (snd (fst b)))) (N.eqb (snd a) (snd b))
+
+(** val name_cache_ok : n -> disk -> n -> ((name * n) * n) list -> bool **)
+
+let name_cache_ok sz d i ents =
+  let want = dir_slot_list sz d i in
+  (&&)
+    ((&&) (Nat.eqb (length ents) (length want))
+      (forallb (fun e -> existsb (triple_eqb e) want) ents))
+    (forallb (fun e -> existsb (triple_eqb e) ents) want)
 
 (** val lOGSZ : n **)
 
